@@ -26,6 +26,10 @@ pub struct Workload {
 	/// the commit worker falls behind the flush worker while it lasts
 	#[serde(default)]
 	pub iter: (u8, u8),
+	/// `sync_data = false`: the library then keeps the 16 newest applied log files instead of
+	/// reclaiming all of them (the commit worker waits for the cleanup worker only above 16)
+	#[serde(default)]
+	pub no_sync_data: bool,
 }
 
 /// size classes: the last one is 1 MiB (17 of them exceed the 16 MiB queue limit)
@@ -59,7 +63,7 @@ pub fn workload(big: bool) -> impl Strategy<Value = Workload> {
 		any::<bool>(),
 		prop_oneof![2 => Just((0u8, 0u8)), 1 => (1u8..4, 1u8..40)],
 	)
-		.prop_map(|(clients, always_flush, shutdown_early, iter)| Workload { clients, always_flush, shutdown_early, iter })
+		.prop_map(|(clients, always_flush, shutdown_early, iter)| Workload { clients, always_flush, shutdown_early, iter, no_sync_data: false })
 }
 
 /// Transactions of 40-75 values of 1 MiB each: two of them exceed the 128 MiB limit of
@@ -72,7 +76,15 @@ pub fn workload_giant() -> impl Strategy<Value = Workload> {
 		big.extend(small);
 		big
 	});
-	(proptest::collection::vec(client, 1..=1), any::<bool>(), prop_oneof![1 => Just(false), 2 => Just(true)]).prop_map(|(clients, always_flush, shutdown_early)| Workload { clients, always_flush, shutdown_early, iter: (0, 0) })
+	(proptest::collection::vec(client, 1..=1), any::<bool>(), prop_oneof![1 => Just(false), 2 => Just(true)]).prop_map(|(clients, always_flush, shutdown_early)| Workload { clients, always_flush, shutdown_early, iter: (0, 0), no_sync_data: false })
+}
+
+/// `sync_data = false` with every log file rotated at once: 18-40 small transactions per client,
+/// so that more than the 16 kept log files are applied in one session.
+pub fn workload_kept_logs() -> impl Strategy<Value = Workload> {
+	let tx = proptest::collection::vec((0u16..12, 0u8..4), 1..=3);
+	let client = proptest::collection::vec(tx, 30..70);
+	(proptest::collection::vec(client, 1..=2), prop_oneof![3 => Just(false), 1 => Just(true)]).prop_map(|(clients, shutdown_early)| Workload { clients, always_flush: true, shutdown_early, iter: (0, 0), no_sync_data: true })
 }
 
 fn options(dir: &Path, wl: &Workload, background: bool) -> Options {
@@ -82,6 +94,7 @@ fn options(dir: &Path, wl: &Workload, background: bool) -> Options {
 	o.stats = false;
 	o.with_background_thread = background;
 	o.always_flush = wl.always_flush;
+	o.sync_data = !wl.no_sync_data;
 	o
 }
 
@@ -102,6 +115,7 @@ pub fn execute(wl: Arc<Workload>, base: &Path) {
 	let db = Arc::new(Db::open_read_only(&options(&dir, &wl, true)).expect("open"));
 	let busy = Arc::new(AtomicU64::new(0));
 	let over = Arc::new(AtomicU64::new(0));
+	let kept = Arc::new(AtomicU64::new(0));
 	let mut workers = Vec::new();
 	for i in 0..4u8 {
 		let db = db.clone();
@@ -113,9 +127,13 @@ pub fn execute(wl: Arc<Workload>, base: &Path) {
 		let script = script.clone();
 		let busy = busy.clone();
 		let over = over.clone();
+		let kept = kept.clone();
 		clients.push(thread::spawn(move || {
 			for (t, tx) in script.iter().enumerate() {
 				let st = db.verif_pipeline_state();
+				if st.3 >= 16 {
+					kept.fetch_add(1, Ordering::SeqCst);
+				}
 				if st.0 > 0 || st.2 > 0 {
 					busy.fetch_add(1, Ordering::SeqCst);
 				}
@@ -167,6 +185,9 @@ pub fn execute(wl: Arc<Workload>, base: &Path) {
 			if st.2 > 128 << 20 {
 				over.fetch_add(1, Ordering::SeqCst);
 			}
+			if st.3 >= 16 {
+				kept.fetch_add(1, Ordering::SeqCst);
+			}
 			let drained = st.0 == 0 && (!wl.always_flush || (st.2 <= 0 && !st.4));
 			if drained {
 				break
@@ -186,6 +207,9 @@ pub fn execute(wl: Arc<Workload>, base: &Path) {
 	}
 	if over.load(Ordering::SeqCst) > 0 || db.verif_pipeline_state().2 > 128 << 20 {
 		LOGQ_OVER_LIMIT.fetch_add(1, Ordering::SeqCst);
+	}
+	if kept.load(Ordering::SeqCst) > 0 || db.verif_pipeline_state().3 >= 16 {
+		KEPT_LOGS_AT_LIMIT.fetch_add(1, Ordering::SeqCst);
 	}
 	// (4) shutdown terminates
 	db.verif_shutdown();
